@@ -14,6 +14,9 @@ DIRECTED = {
     + [("single_int_seed", 40 + i) for i in range(8)] + [("single_povmt", 60 + i) for i in range(4)] + [("four_levels", 80 + i) for i in range(8)],
 }
 
+# real-joblib calibration of the SimParallel model (thorough tier; see selftest/joblib_calibration.py)
+PRECHECKS = {"thorough": ["selftest/joblib_calibration.py"]}
+
 RULE = (
     "One evaluation = one configuration of quara's Monte-Carlo flow (unknown type, noise model, samples, repetitions, sample sizes, "
     "estimator cases, seeds, parallel_mode in {1..4}^4, or the single-setting entry point) drawn from seed_i, executed once serially "
